@@ -12,9 +12,11 @@ CONSTANTS
     ResetMemoAtLastRelease = TRUE
     DropOnlyAtZero = TRUE
     DoneDuplicate = TRUE
+    ResolveDetached = TRUE
+    Cancels = TRUE
 INIT Init
 NEXT Next
 VIEW core
-INVARIANTS CountNonNegative HeldWhileCached HandlesMatchLayers TypeOK OnlyOwnCached MemoOkMeansCached TrackedPositive
+INVARIANTS CountNonNegative HeldWhileCached HandlesMatchLayers TypeOK OnlyOwnCached MemoOkMeansCached TrackedPositive NoCancelRemembered
 PROPERTIES NeverDoneWhileUsed UnknownDigestFails LookupSucceedsIffTocInImage SuccessMeansCached LastReleaseDropsBookkeeping NextLookupResolvesAgain
 CHECK_DEADLOCK FALSE
